@@ -103,6 +103,13 @@ func scanStashed(cb GitScannerFoundPointer) error {
 	// an individual diff with the first merge parent in a second step.
 	logArgs := []string{"-g", "--format=%h", "refs/stash", "--"}
 
+	// Having no stash at all is the common case and not an error; once
+	// refs/stash exists, a failure to walk it means the stashed objects
+	// are unknown.
+	if _, err := subprocess.SimpleExec("git", "show-ref", "--verify", "--quiet", "refs/stash"); err != nil {
+		return nil
+	}
+
 	cmd, err := git.Log(logArgs...)
 	if err != nil {
 		return err
@@ -120,8 +127,7 @@ func scanStashed(cb GitScannerFoundPointer) error {
 	}
 	err = cmd.Wait()
 	if err != nil {
-		// Ignore this error, it really only happens when there's no refs/stash
-		return nil
+		return errors.New(tr.Tr.Get("error while scanning `git log` for stashed refs: %v", err))
 	}
 
 	// We can use the log parser if we provide the -m and --first-parent
